@@ -1,0 +1,131 @@
+//! Verification hooks (only compiled with `--cfg linfa_verif`): a stepper around the private
+//! `SolverState` on a caller-supplied dense kernel matrix.  Thin wrappers, no logic of their own.
+use super::{SolverParams, SolverState};
+use crate::permutable_kernel::{Permutable, PermutableKernel};
+use crate::SeparatingHyperplane;
+use linfa_kernel::{Kernel, KernelInner, KernelMethod};
+use ndarray::{Array2, ArrayView2};
+
+/// Plain copy of the solver state (positions, not samples).
+#[derive(Clone, Debug)]
+pub struct Dump {
+    pub alpha: Vec<f64>,
+    pub alpha_ub: Vec<f64>,
+    pub gradient: Vec<f64>,
+    pub gradient_fixed: Vec<f64>,
+    pub active_set: Vec<usize>,
+    pub nactive: usize,
+    pub unshrink: bool,
+    pub p: Vec<f64>,
+    pub targets: Vec<bool>,
+    pub bounds: Vec<f64>,
+    /// `kernel.distances(k, ntotal)` for every position `k`
+    pub q_rows: Vec<Vec<f64>>,
+    /// `kernel.self_distance(k)` for every position `k`
+    pub q_diag: Vec<f64>,
+}
+
+/// Published result of `solve`.
+#[derive(Clone, Debug)]
+pub struct Solved {
+    pub alpha: Vec<f64>,
+    pub rho: f64,
+    pub r: Option<f64>,
+    pub obj: f64,
+    pub iterations: usize,
+    pub reached_threshold: bool,
+    pub linear: Option<Vec<f64>>,
+    pub support: Option<Vec<Vec<f64>>>,
+}
+
+pub struct Stepper<'a> {
+    st: SolverState<'a, f64, PermutableKernel<f64>>,
+}
+
+impl<'a> Stepper<'a> {
+    /// `kernel` is the dense kernel matrix K (the solver applies the label signs itself);
+    /// `linear` selects `KernelMethod::Linear` (published as one weight vector) versus a
+    /// non-linear method tag (published as the selected support vectors).
+    #[allow(clippy::too_many_arguments)]
+    pub fn new(
+        kernel: Array2<f64>,
+        linear: bool,
+        dataset: ArrayView2<'a, f64>,
+        alpha: Vec<f64>,
+        p: Vec<f64>,
+        targets: Vec<bool>,
+        bounds: Vec<f64>,
+        eps: f64,
+        shrinking: bool,
+        nu_constraint: bool,
+    ) -> Stepper<'a> {
+        let method = if linear { KernelMethod::Linear } else { KernelMethod::Gaussian(1.0) };
+        let kernel: Kernel<f64> = Kernel { inner: KernelInner::Dense(kernel), method };
+        let kernel = PermutableKernel::new(kernel, targets.clone());
+        let st = SolverState::new(
+            alpha,
+            p,
+            targets,
+            dataset,
+            kernel,
+            bounds,
+            SolverParams { eps, shrinking },
+            nu_constraint,
+        );
+        Stepper { st }
+    }
+    pub fn update(&mut self, i: usize, j: usize) {
+        self.st.update((i, j))
+    }
+    pub fn swap(&mut self, i: usize, j: usize) {
+        self.st.swap(i, j)
+    }
+    pub fn do_shrinking(&mut self) {
+        self.st.do_shrinking()
+    }
+    pub fn reconstruct_gradient(&mut self) {
+        self.st.reconstruct_gradient()
+    }
+    pub fn select_working_set(&self) -> (usize, usize, bool) {
+        self.st.select_working_set()
+    }
+    pub fn calculate_rho(&mut self) -> f64 {
+        self.st.calculate_rho()
+    }
+    pub fn dump(&self) -> Dump {
+        let n = self.st.ntotal();
+        Dump {
+            alpha: self.st.alpha.iter().map(|a| a.value).collect(),
+            alpha_ub: self.st.alpha.iter().map(|a| a.upper_bound).collect(),
+            gradient: self.st.gradient.clone(),
+            gradient_fixed: self.st.gradient_fixed.clone(),
+            active_set: self.st.active_set.clone(),
+            nactive: self.st.nactive,
+            unshrink: self.st.unshrink,
+            p: self.st.p.clone(),
+            targets: self.st.targets.clone(),
+            bounds: self.st.bounds.clone(),
+            q_rows: (0..n).map(|k| self.st.kernel.distances(k, n)).collect(),
+            q_diag: (0..n).map(|k| self.st.kernel.self_distance(k)).collect(),
+        }
+    }
+    pub fn solve(self) -> Solved {
+        let svm = self.st.solve();
+        let (linear, support) = match &svm.sep_hyperplane {
+            SeparatingHyperplane::Linear(w) => (Some(w.to_vec()), None),
+            SeparatingHyperplane::WeightedCombination(sv) => {
+                (None, Some(sv.outer_iter().map(|r| r.to_vec()).collect()))
+            }
+        };
+        Solved {
+            alpha: svm.alpha.clone(),
+            rho: svm.rho,
+            r: svm.r,
+            obj: svm.obj,
+            iterations: svm.iterations,
+            reached_threshold: matches!(svm.exit_reason, crate::ExitReason::ReachedThreshold),
+            linear,
+            support,
+        }
+    }
+}
